@@ -574,9 +574,45 @@ func (rn *runner) open(dir string) error {
 }
 
 // crashPoint materialises crash images of the present moment, reopens them in a child and records them.
+// tornMeta (experiment, -torn-meta): when the in-place rewrite of a metadata file changed its length, also
+// reopen the image in which the new bytes are on disk but the old length is (the file model of the
+// property allows it; the specification models the metadata file as old-or-new only).  Results are only
+// counted in the summary.
+func (rn *runner) tornMeta(what string, cur map[string][]byte) {
+	for n, c := range cur {
+		id, _ := classify(n)
+		d := rn.tk.dur[n]
+		if id.Kind != "meta" || len(d) == len(c) || len(d) == 0 {
+			continue
+		}
+		l := min(len(d), len(c))
+		torn := append([]byte{}, c[:l]...)
+		rn.imgSeq++
+		dir := filepath.Join(rn.scratch, fmt.Sprintf("torn-%06d", rn.imgSeq))
+		os.MkdirAll(dir, 0o755)
+		for m, mc := range cur {
+			content := mc
+			if m == n {
+				content = torn
+			}
+			os.WriteFile(filepath.Join(dir, m), content, 0o644)
+		}
+		res := reopenImages(rn.self, rn.cfg, []string{dir}, rn.scratch)[0]
+		rn.sum.Count("torn-meta")
+		if !res.OK {
+			rn.sum.Count("torn-meta-open-failed")
+			rn.sum.Extra["torn-meta-example"] = tl.M{"at": what, "file": n, "old_len": len(d), "new_len": len(c), "err": res.Err}
+		}
+		os.RemoveAll(dir)
+	}
+}
+
 func (rn *runner) crashPoint(what string) {
 	rn.points++
 	cur := rn.tk.refresh()
+	if tornMetaExp {
+		rn.tornMeta(what, cur)
+	}
 	// per file options
 	names := make([]string, 0, len(cur))
 	for n := range cur {
@@ -912,6 +948,7 @@ func (rn *runner) history(h int, steps int, script string) {
 }
 
 var unsyncedTail bool
+var tornMetaExp bool
 
 // mainCrash picks one crash image of the present moment and continues the history on it.
 func (rn *runner) mainCrash(h, k int) {
@@ -1018,6 +1055,7 @@ func main() {
 	perPt := flag.Int("images", 6, "crash images per crash point")
 	every := flag.Bool("every-length", false, "propose every byte length between durable and current")
 	flag.BoolVar(&unsyncedTail, "unsynced-tail", false, "also truncate the tail above the synced head")
+	flag.BoolVar(&tornMetaExp, "torn-meta", false, "experiment: also reopen images with a torn metadata rewrite (counted only)")
 	script := flag.String("script", "", "run this history instead of random ones, e.g. a2,s,t1,h1,c,a1 (append/sync/tail/head/crash)")
 	scripts := flag.String("scripts", "", "JSON file with call histories sampled by TLC ([[{c,n}..]..]) to run before the random ones")
 	out := flag.String("out", "summary.json", "summary output")
